@@ -18,6 +18,12 @@
  */
 use crate::dns::dnspkt;
 
+/* RFC1035 Section 2.3.4: a name is at most 255 octets on the wire (including the root label), which
+ * leaves room for at most 127 labels.
+ */
+const MAX_DOMAIN_WIRE_LEN: usize = 255;
+const MAX_DOMAIN_LABELS: i32 = 127;
+
 pub struct EdnsParser<'l> {
     buffer: &'l [u8],
 }
@@ -127,6 +133,7 @@ impl<'l> PktParser<'l> {
     fn get_domain_into(
         &mut self,
         domainv: &mut Vec<dnspkt::Label>,
+        wire_len: &mut usize,
         depth: i32,
     ) -> Result<(), String> {
         loop {
@@ -138,10 +145,18 @@ impl<'l> PktParser<'l> {
                 }
                 p if p & 0b1100_0000 == 0 => {
                     // Uncompressed label
+                    *wire_len += 1 + prefix as usize;
+                    if *wire_len > MAX_DOMAIN_WIRE_LEN - 1 {
+                        return Err("Domain name too long".into());
+                    }
                     domainv.push(dnspkt::Label::from(self.get_bytes(prefix as usize)?));
                 }
                 offset_high if offset_high & 0b1100_0000 == 0b1100_0000 => {
-                    if depth > 10 {
+                    /* Each name of a message may be compressed against the one before it (our own
+                     * serialiser does this), so a valid name can need as many pointers as it has
+                     * labels.  The length check above bounds the work per name.
+                     */
+                    if depth > MAX_DOMAIN_LABELS {
                         return Err("Compression Corruption".into());
                     }
                     // Compressed label.
@@ -150,7 +165,7 @@ impl<'l> PktParser<'l> {
                         (((offset_high & !0b1100_0000) as usize) << 8) | (offset_low as usize);
                     let saved_offset = self.offset;
                     self.offset = offset;
-                    let ret = self.get_domain_into(domainv, depth + 1);
+                    let ret = self.get_domain_into(domainv, wire_len, depth + 1);
                     self.offset = saved_offset;
                     return ret;
                 }
@@ -161,7 +176,8 @@ impl<'l> PktParser<'l> {
 
     pub fn get_domain(&mut self) -> Result<dnspkt::Domain, String> {
         let mut domainv = Vec::new();
-        self.get_domain_into(&mut domainv, 1)
+        let mut wire_len = 0;
+        self.get_domain_into(&mut domainv, &mut wire_len, 1)
             .map(|_| dnspkt::Domain::from(domainv))
     }
 
